@@ -46,7 +46,6 @@ use std::sync::Arc;
 use vf_kit::engine::*;
 use vf_kit::refsql::{self, Table, Ty, Value};
 
-use crate::c30::fail_result;
 use crate::walk::{self, Declared, Finding, Judged, Program, Purpose, SourceDecl, Walk, WalkCase, WalkFail, WalkNode, canon, has_nan, row_keys};
 
 pub struct C29;
@@ -435,9 +434,9 @@ fn classify(n: &WalkNode, scope: Scope, msg: &str, stealing: bool) -> Option<Str
             "[{}{}{}]",
             if d.contains("file_type=parquet") { "parquet" } else { "memory" },
             if d.contains("limit=") || d.contains("fetch=") { "+limit" } else { "" },
-            if d.contains("CAST(") { "+cast" } else { "" }
+            if d.contains("CAST(") && stat == "min_max" { "+cast" } else { "" }
         ),
-        "ProjectionExec" => (if d.contains("CAST(") { "[cast]" } else { "" }).to_string(),
+        "ProjectionExec" => (if d.contains("CAST(") && stat == "min_max" { "[cast]" } else { "" }).to_string(),
         x if x.starts_with("SortExec") => (if d.contains("TopK(fetch=") { "[topk]" } else { "" }).to_string(),
         "AggregateExec" => {
             let mode = d.split("mode=").nth(1).and_then(|r| r.split(',').next()).unwrap_or("");
@@ -657,7 +656,7 @@ impl Property for C29 {
 fn judge(case: &Case) -> Judged {
     let (w, e2e) = match run_case(case) {
         Ok(x) => x,
-        Err(e) => return Judged::clean(fail_result(e)),
+        Err(e) => return crate::c30::fail_judged(e, &case.base),
     };
     walk::dump(&w);
     let mut labels = walk::plan_labels(&case.base, &w);
